@@ -128,7 +128,7 @@ def audit(mod):
     path = os.path.join(WORK, "audit", mod.replace(".", "_") + ".lean")
     open(path, "w").write(AUDIT_TMPL.format(mod=mod))
     rc, o, e = sh(["lake", "env", "lean", path], cwd=LEAN, timeout=1800)
-    for line in o.splitlines():
+    for line in o.split("\n"):
         if line.startswith("AUDIT "):
             return True, json.loads(line[6:]), o + e
     return False, [], o + e
@@ -167,7 +167,7 @@ def gen_cases(prop, seed, n, tier):
     rc, o, e = sh([PVH, "gen", "-prop", prop, "-seed", str(seed), "-n", str(n), "-tier", tier], timeout=3600)
     if rc != 0:
         raise RuntimeError("pvh gen failed: " + e)
-    return [json.loads(l) for l in o.splitlines() if l.strip()]
+    return [json.loads(l) for l in o.split("\n") if l.strip()]
 
 
 def run_impl(cases, timeout=3600, pvh=None, env=None, _budget=None):
@@ -193,7 +193,7 @@ def run_impl(cases, timeout=3600, pvh=None, env=None, _budget=None):
         out = ex.stdout.decode() if isinstance(ex.stdout, bytes) else (ex.stdout or "")
         err, rc = "harness run timed out after %ss" % timeout, -9
     res = {}
-    for l in out.splitlines():
+    for l in out.split("\n"):
         if l.strip():
             try:
                 j = json.loads(l)
@@ -233,7 +233,7 @@ def run_model(cases, impl=None, timeout=3600):
     p = subprocess.run([PVD], input="\n".join(lines) + "\n", stdout=subprocess.PIPE, stderr=subprocess.PIPE, text=True,
                        timeout=timeout)
     res = {}
-    for l in p.stdout.splitlines():
+    for l in p.stdout.split("\n"):
         if l.strip():
             j = json.loads(l)
             res[j.get("id")] = (j.get("model"), j.get("spec"))
